@@ -295,25 +295,37 @@ def _angles_arms(ga: FuncInfo):
     a = sp.Symbol("a", complex=True, nonzero=True)
     env = {"np": "<np>", elim_p: a, other_p: rho * sp.exp(sp.I * fphi) * a}
     ev = SymEval(ga, {}, env=env)
+    n_angle = [0]
+
+    class _Angles(ast.NodeTransformer):
+        """np.angle(z) wherever it is written: angle(rho * exp(i varphi)) = varphi for rho > 0 (principal value; varphi in (-pi, pi])"""
+
+        def visit_Call(self, c):
+            self.generic_visit(c)
+            if (dotted(c.func) or "").split(".")[-1] == "angle" and len(c.args) == 1:
+                inner = sp.simplify(ev.ev(c.args[0]))
+                ratio = sp.simplify(inner / sp.exp(sp.I * fphi))
+                if ratio.is_positive:
+                    val = fphi
+                elif sp.simplify(inner * sp.exp(sp.I * fphi)).is_positive:
+                    val = -fphi
+                else:
+                    raise AnalysisError(f"C15c: cannot read the argument of np.angle in _get_angles: {inner} (undecided)")
+                n_angle[0] += 1
+                nm = f"angle__{n_angle[0]}"
+                ev.env[nm] = val
+                return ast.copy_location(ast.Name(nm, ast.Load()), c)
+            return c
+
+    import copy as _copy
     for st in ga.node.body:
         if isinstance(st, ast.Assign) and isinstance(st.value, ast.Attribute) and st.value.attr == "np":
             continue
         if isinstance(st, ast.Assign) and len(st.targets) == 1 and isinstance(st.targets[0], ast.Name):
-            v = st.value
-            if isinstance(v, ast.Call) and (dotted(v.func) or "").split(".")[-1] == "angle" and len(v.args) == 1:
-                inner = sp.simplify(ev.ev(v.args[0]))
-                # angle(rho * exp(i varphi)) = varphi for rho > 0 (principal value; varphi ranges over (-pi, pi])
-                ratio = sp.simplify(inner / sp.exp(sp.I * fphi))
-                if ratio.is_positive:
-                    ev.env[st.targets[0].id] = fphi
-                elif sp.simplify(inner * sp.exp(sp.I * fphi)).is_positive:
-                    ev.env[st.targets[0].id] = -fphi
-                else:
-                    raise AnalysisError(f"C15c: cannot read the argument of np.angle in _get_angles: {inner} (undecided)")
-                continue
+            v = _Angles().visit(_copy.deepcopy(st.value))
             ev.env[st.targets[0].id] = sp.simplify(ev.ev(v))
         elif isinstance(st, ast.Return) and isinstance(st.value, ast.Tuple) and len(st.value.elts) == 2:
-            general = tuple(sp.simplify(ev.ev(x)) for x in st.value.elts)
+            general = tuple(sp.simplify(ev.ev(_Angles().visit(_copy.deepcopy(x)))) for x in st.value.elts)
     if degenerate is None or general is None:
         raise AnalysisError("C15c: _get_angles no longer has the shape `if isclose(pivot, 0): return c1, c2 ... return theta, phi` (undecided)")
     return degenerate, general, rho, fphi, a
@@ -337,9 +349,8 @@ def _givens_sites(m, ga_name: str):
                 binds[st.targets[0].id] = st.value
 
         def element(arg):
-            if not isinstance(arg, ast.Name) or arg.id not in binds:
-                raise AnalysisError(f"C15c: argument `{norm(arg)}` of {ga_name} in {fn.name} is not a local element (undecided)")
-            v = binds[arg.id]
+            # the element may be named first or written in place
+            v = binds[arg.id] if isinstance(arg, ast.Name) and arg.id in binds else arg
             sign = 1
             if isinstance(v, ast.UnaryOp) and isinstance(v.op, ast.USub):
                 sign, v = -1, v.operand
